@@ -94,8 +94,9 @@ def parse_kani_output(out, harnesses):
 
 
 def as_failure(kr, pid):
-    return Failure(kr["harness"], "kani", kr["harness"], (pid,), kr.get("reason", "kani harness failed"),
-                   kr.get("where", ""), "kani::%s" % kr["harness"], kr.get("output", "")[-3000:])
+    kind = kr.get("kind", "kani")
+    return Failure(kr["harness"], kind, kr["harness"], (pid,), kr.get("reason", "%s harness failed" % kind),
+                   kr.get("where", ""), "%s::%s" % (kind, kr["harness"]), kr.get("output", "")[-3000:])
 
 
 # ------------------------------------------------------------------ per property
@@ -183,4 +184,31 @@ def _group_inmod(key):
     return g
 
 
-GROUPS = {"unicode": group_unicode, "inmod_c03": _group_inmod("c03"), "inmod_c10": _group_inmod("c10")}
+def group_lines_enum(root, repo, pid, P, tier):
+    """Native enumeration over the real crate (replay/src/bin/lines_search.rs): an enumerative stand-in for the clauses no
+    contract reaches (error rendering, LineIndex over a consumed prefix) and a cross-check of the contracted ones."""
+    from . import replay as rp
+    t0 = time.time()
+    maxlen = "6" if tier == "thorough" else "5"
+    ok, log = rp.build_searchers(root, repo, ["lines"])
+    if not ok:
+        st, reason, out = "undecided", "searcher build failed", log
+    else:
+        try:
+            p = subprocess.run([rp.searcher_bin(root, "lines"), "--search", pid], capture_output=True, text=True, timeout=1500,
+                               env=dict(os.environ, VX_LINES_MAXLEN=maxlen))
+            out = p.stdout + p.stderr
+            st = "ok" if "NO-WITNESS" in p.stdout else ("failed" if "WITNESS" in p.stdout else "undecided")
+            reason = ""
+            for line in p.stdout.split("\n"):
+                if line.startswith("WITNESS "):
+                    reason = line[8:]
+        except subprocess.TimeoutExpired:
+            st, reason, out = "undecided", "timeout", ""
+    return [dict(harness="lines_enumeration", kind="enum", status=st, reason=reason or out[-300:], output=out[-2000:], complete=False,
+                 what="positions, spans, pairs (builder / into_inner / flatten / parse), errors and the rendered marker agree with the definition at every offset and offset pair",
+                 bound="every text of <= %s characters over {a, \\n, \\r, é, €, \\t} - exhaustive native enumeration on the real code, not a deductive proof" % maxlen,
+                 wall_s=time.time() - t0, cmd="out/target-replay/release/lines_search --search C10 (VX_LINES_MAXLEN=%s)" % maxlen)]
+
+
+GROUPS = {"unicode": group_unicode, "inmod_c03": _group_inmod("c03"), "inmod_c10": _group_inmod("c10"), "lines_enum": group_lines_enum}
